@@ -66,3 +66,414 @@ Example C09_outgroup_ties_refuted :
   length (tags (reconcile_thl S c RALL O)) = 4%nat /\
   length (tags (reconcile_thl (S_out S) c RALL (omap og O))) = 5%nat.
 Proof. vm_compute. split; reflexivity. Qed.
+
+(** * Labelled solvers, optimal sets under an outgroup, family renaming (Proofs/Meta2Proofs.v)
+
+    Statements generated from the lemmas' types as Coq prints them; [optimal_sol] / [uoptimal] /
+    [uall_optimal] are the specification optima of the ordered solver, of the unordered solver over
+    canonical labellings and over all labellings; through the exactness theorems of C02/C03/C05 they
+    are what the solvers return inside the coherent region (the [spfs_*] / [uspfs_*] / [thl_*]
+    corollaries below state this on the solver models directly). *)
+From SR Require Import Model.Spfs Model.Uspfs Proofs.SpfsProofs Proofs.SpfsFinal Proofs.UspfsProofs Proofs.UspfsFinal Proofs.Meta2Proofs.
+
+(* adding an outgroup species keeps the optimal SET when full losses cost something (plain reconciliation, and reconcile_thl through C01); the hypothesis floss > 0 cannot be dropped *)
+Theorem C09_opt_outgroup_set :
+  forall (S : stree) (c : costs) (O : otree) (r' : rtree),
+       nn (c_hgt c) ->
+       0 < c_floss c ->
+       coherent c ->
+       optimal (S_out S) c (omap og O) r' -> exists r : rtree, r' = rmap og r /\ optimal S c O r.
+Proof. exact @opt_outgroup_set. Qed.
+Print Assumptions C09_opt_outgroup_set.
+
+Theorem C09_opt_outgroup_iff :
+  forall (S : stree) (c : costs) (O : otree) (r' : rtree),
+       nn (c_hgt c) ->
+       0 < c_floss c ->
+       coherent c ->
+       optimal (S_out S) c (omap og O) r' <-> (exists r : rtree, r' = rmap og r /\ optimal S c O r).
+Proof. exact @opt_outgroup_iff. Qed.
+Print Assumptions C09_opt_outgroup_iff.
+
+Theorem C09_thl_outgroup_set :
+  forall (S : stree) (c : costs) (O : otree) (r' : rtree),
+       nn (c_hgt c) ->
+       0 < c_floss c ->
+       coherent c ->
+       leaves_ok S O ->
+       In r' (tags (reconcile_thl (S_out S) c RALL (omap og O))) <->
+       (exists r : rtree, r' = rmap og r /\ In r (tags (reconcile_thl S c RALL O))).
+Proof. exact @thl_outgroup_set. Qed.
+Print Assumptions C09_thl_outgroup_set.
+
+Theorem C09_outgroup_set_needs_floss :
+  let S := SLeaf in
+       let O := ONode (OLeaf [] []) (OLeaf [] []) in
+       let c := {| c_spe := 0; c_dup := 1; c_hgt := Fin 1; c_floss := 0; c_sloss := 0 |} in
+       let r' := RNode [] (RLeaf [false]) (RLeaf [false]) in
+       coherent c /\
+       0 <= c_floss c /\ optimal (S_out S) c (omap og O) r' /\ ~ (exists r : rtree, r' = rmap og r).
+Proof. exact @outgroup_set_needs_floss. Qed.
+Print Assumptions C09_outgroup_set_needs_floss.
+
+(* scaling all unit costs, labelled evaluators and labelled optimal sets (ordered, unordered canonical, unordered over all labellings) *)
+Theorem C09_total_cost_scale :
+  forall (k : Z) (c : costs) (O : otree) (ordered : bool) (t : ltree),
+       total_cost (scale_costs k c) O ordered t =
+       option_map (ext_scale k) (total_cost c O ordered t).
+Proof. exact @total_cost_scale. Qed.
+Print Assumptions C09_total_cost_scale.
+
+Theorem C09_cost_of_scale :
+  forall (k : Z) (c : costs) (O : otree) (lt : ltree),
+       cost_of (scale_costs k c) O lt = ext_scale k (cost_of c O lt).
+Proof. exact @cost_of_scale. Qed.
+Print Assumptions C09_cost_of_scale.
+
+Theorem C09_ucost_scale :
+  forall (k : Z) (c : costs) (O : otree) (t : ltree),
+       ucost (scale_costs k c) O t = ext_scale k (ucost c O t).
+Proof. exact @ucost_scale. Qed.
+Print Assumptions C09_ucost_scale.
+
+Theorem C09_optimal_sol_scale :
+  forall (k : Z) (S : stree) (c : costs) (extended : bool) (orders : list (list fam))
+         (O : otree) (lt : ltree),
+       0 < k ->
+       optimal_sol S (scale_costs k c) extended orders O lt <->
+       optimal_sol S c extended orders O lt.
+Proof. exact @optimal_sol_scale. Qed.
+Print Assumptions C09_optimal_sol_scale.
+
+Theorem C09_uoptimal_scale :
+  forall (k : Z) (S : stree) (c : costs) (extended : bool) (O : otree) (t : ltree),
+       0 < k -> uoptimal S (scale_costs k c) extended O t <-> uoptimal S c extended O t.
+Proof. exact @uoptimal_scale. Qed.
+Print Assumptions C09_uoptimal_scale.
+
+Theorem C09_uall_optimal_scale :
+  forall (k : Z) (S : stree) (c : costs) (extended : bool) (O : otree) (t : ltree),
+       0 < k -> uall_optimal S (scale_costs k c) extended O t <-> uall_optimal S c extended O t.
+Proof. exact @uall_optimal_scale. Qed.
+Print Assumptions C09_uall_optimal_scale.
+
+Theorem C09_spfs_scale :
+  forall (k : Z) (S : stree) (c : costs) (extended : bool) (orders : list (list fam))
+         (O : otree) (e e' : entry ltree) (lt : ltree),
+       0 < k ->
+       nn (c_hgt c) ->
+       coherent_ord c ->
+       orders_ok S O orders ->
+       spfs S c RALL extended orders O = Some e ->
+       spfs S (scale_costs k c) RALL extended orders O = Some e' ->
+       In lt (tags e') <-> In lt (tags e).
+Proof. exact @spfs_scale. Qed.
+Print Assumptions C09_spfs_scale.
+
+(* raising unit costs never lowers a labelled cost nor a labelled minimum *)
+Theorem C09_ucost_mono :
+  forall (c c' : costs) (O : otree) (t : ltree),
+       0 <= c_floss c -> costs_le c c' -> ele (ucost c O t) (ucost c' O t).
+Proof. exact @ucost_mono. Qed.
+Print Assumptions C09_ucost_mono.
+
+Theorem C09_uopt_monotone :
+  forall (S : stree) (c c' : costs) (extended : bool) (O : otree) (t t' : ltree),
+       0 <= c_floss c ->
+       costs_le c c' ->
+       uoptimal S c extended O t ->
+       uoptimal S c' extended O t' -> ele (ucost c O t) (ucost c' O t').
+Proof. exact @uopt_monotone. Qed.
+Print Assumptions C09_uopt_monotone.
+
+Theorem C09_uall_opt_monotone :
+  forall (S : stree) (c c' : costs) (extended : bool) (O : otree) (t t' : ltree),
+       0 <= c_floss c ->
+       costs_le c c' ->
+       uall_optimal S c extended O t ->
+       uall_optimal S c' extended O t' -> ele (ucost c O t) (ucost c' O t').
+Proof. exact @uall_opt_monotone. Qed.
+Print Assumptions C09_uall_opt_monotone.
+
+Theorem C09_cost_of_mono :
+  forall (c c' : costs) (S : stree) (ord : list fam) (O : otree) (t : ltree),
+       NoDup ord ->
+       leaves_ord S ord O ->
+       valid_ordered S ord O t ->
+       0 <= c_floss c -> costs_le c c' -> ele (cost_of c O t) (cost_of c' O t).
+Proof. exact @cost_of_mono. Qed.
+Print Assumptions C09_cost_of_mono.
+
+Theorem C09_sopt_monotone :
+  forall (S : stree) (c c' : costs) (extended : bool) (orders : list (list fam)) 
+         (O : otree) (lt lt' : ltree),
+       orders_ok S O orders ->
+       0 <= c_floss c ->
+       costs_le c c' ->
+       optimal_sol S c extended orders O lt ->
+       optimal_sol S c' extended orders O lt' -> ele (cost_of c O lt) (cost_of c' O lt').
+Proof. exact @sopt_monotone. Qed.
+Print Assumptions C09_sopt_monotone.
+
+(* reordering object-tree children, labelled solutions: cost-preserving bijection on optimal sets *)
+Theorem C09_total_cost_lflip :
+  forall (c : costs) (p : plan) (O : otree) (ordered : bool) (t : ltree),
+       total_cost c (oflip p O) ordered (lflip p t) = total_cost c O ordered t.
+Proof. exact @total_cost_lflip. Qed.
+Print Assumptions C09_total_cost_lflip.
+
+Theorem C09_optimal_sol_lflip :
+  forall (S : stree) (c : costs) (extended : bool) (orders : list (list fam)) 
+         (p : plan) (O : otree) (lt : ltree),
+       optimal_sol S c extended orders (oflip p O) (lflip p lt) <->
+       optimal_sol S c extended orders O lt.
+Proof. exact @optimal_sol_lflip. Qed.
+Print Assumptions C09_optimal_sol_lflip.
+
+Theorem C09_uall_optimal_lflip :
+  forall (S : stree) (c : costs) (extended : bool) (p : plan) (O : otree) (t : ltree),
+       uall_optimal S c extended (oflip p O) (lflip p t) <-> uall_optimal S c extended O t.
+Proof. exact @uall_optimal_lflip. Qed.
+Print Assumptions C09_uall_optimal_lflip.
+
+Theorem C09_uoptimal_lflip :
+  forall (S : stree) (c : costs) (extended : bool) (p : plan) (O : otree) (t : ltree),
+       uoptimal S c extended (oflip p O) (lflip p t) <-> uoptimal S c extended O t.
+Proof. exact @uoptimal_lflip. Qed.
+Print Assumptions C09_uoptimal_lflip.
+
+Theorem C09_spfs_swap_object_children :
+  forall (S : stree) (c : costs) (extended : bool) (orders : list (list fam)) 
+         (p : plan) (O : otree) (e e' : entry ltree) (lt : ltree),
+       nn (c_hgt c) ->
+       coherent_ord c ->
+       orders_ok S O orders ->
+       spfs S c RALL extended orders O = Some e ->
+       spfs S c RALL extended orders (oflip p O) = Some e' ->
+       In (lflip p lt) (tags e') <-> In lt (tags e).
+Proof. exact @spfs_swap_object_children. Qed.
+Print Assumptions C09_spfs_swap_object_children.
+
+Theorem C09_uspfs_swap_object_children :
+  forall (S : stree) (c : costs) (extended : bool) (p : plan) (O : otree),
+       nn (c_hgt c) ->
+       ucoherent c ->
+       leaves_ok S O ->
+       exists E E' : entry ltree,
+         uspfs S c RALL extended O = Some E /\
+         uspfs S c RALL extended (oflip p O) = Some E' /\
+         (forall t : ltree, In (lflip p t) (tags E') <-> In t (tags E)).
+Proof. exact @uspfs_swap_object_children. Qed.
+Print Assumptions C09_uspfs_swap_object_children.
+
+(* exchanging species-tree children, labelled solutions *)
+Theorem C09_total_cost_swap_species :
+  forall (f : path -> bool) (c : costs) (O : otree) (ordered : bool) (t : ltree),
+       total_cost c (omap (phi f) O) ordered (lmap (phi f) t) = total_cost c O ordered t.
+Proof. exact @total_cost_swap_species. Qed.
+Print Assumptions C09_total_cost_swap_species.
+
+Theorem C09_optimal_sol_swap_species :
+  forall (f : path -> bool) (S : stree) (c : costs) (extended : bool)
+         (orders : list (list fam)) (O : otree) (lt : ltree),
+       optimal_sol (sflip f [] S) c extended orders (omap (phi f) O) (lmap (phi f) lt) <->
+       optimal_sol S c extended orders O lt.
+Proof. exact @optimal_sol_swap_species. Qed.
+Print Assumptions C09_optimal_sol_swap_species.
+
+Theorem C09_uall_optimal_swap_species :
+  forall (f : path -> bool) (S : stree) (c : costs) (extended : bool) (O : otree) (t : ltree),
+       uall_optimal (sflip f [] S) c extended (omap (phi f) O) (lmap (phi f) t) <->
+       uall_optimal S c extended O t.
+Proof. exact @uall_optimal_swap_species. Qed.
+Print Assumptions C09_uall_optimal_swap_species.
+
+Theorem C09_uoptimal_swap_species :
+  forall (f : path -> bool) (S : stree) (c : costs) (extended : bool) (O : otree) (t : ltree),
+       uoptimal (sflip f [] S) c extended (omap (phi f) O) (lmap (phi f) t) <->
+       uoptimal S c extended O t.
+Proof. exact @uoptimal_swap_species. Qed.
+Print Assumptions C09_uoptimal_swap_species.
+
+(* renaming gene families by any bijection *)
+Theorem C09_ucost_lren :
+  forall g : fam -> fam,
+       (forall x y : fam, g x = g y -> x = y) ->
+       forall (c : costs) (O : otree) (t : ltree), ucost c (oren g O) (lren g t) = ucost c O t.
+Proof. exact @ucost_lren. Qed.
+Print Assumptions C09_ucost_lren.
+
+Theorem C09_uall_optimal_lren :
+  forall (g h : fam -> fam) (S : stree) (c : costs) (extended : bool) (O : otree) (t : ltree),
+       (forall x : fam, h (g x) = x) ->
+       (forall x : fam, g (h x) = x) ->
+       uall_optimal S c extended O t -> uall_optimal S c extended (oren g O) (lren g t).
+Proof. exact @uall_optimal_lren. Qed.
+Print Assumptions C09_uall_optimal_lren.
+
+Theorem C09_uall_optimal_lren_back :
+  forall (g h : fam -> fam) (S : stree) (c : costs) (extended : bool) (O : otree) (t' : ltree),
+       (forall x : fam, h (g x) = x) ->
+       (forall x : fam, g (h x) = x) ->
+       uall_optimal S c extended (oren g O) t' ->
+       exists t : ltree, t' = lren g t /\ uall_optimal S c extended O t.
+Proof. exact @uall_optimal_lren_back. Qed.
+Print Assumptions C09_uall_optimal_lren_back.
+
+Theorem C09_uoptimal_lren :
+  forall (g h : fam -> fam) (S : stree) (c : costs) (extended : bool) (O : otree) (t : ltree),
+       (forall x : fam, h (g x) = x) ->
+       (forall x : fam, g (h x) = x) ->
+       uoptimal S c extended O t -> uoptimal S c extended (oren g O) (lren g t).
+Proof. exact @uoptimal_lren. Qed.
+Print Assumptions C09_uoptimal_lren.
+
+Theorem C09_uoptimal_lren_back :
+  forall (g h : fam -> fam) (S : stree) (c : costs) (extended : bool) (O : otree) (t' : ltree),
+       (forall x : fam, h (g x) = x) ->
+       (forall x : fam, g (h x) = x) ->
+       uoptimal S c extended (oren g O) t' ->
+       exists t : ltree, t' = lren g t /\ uoptimal S c extended O t.
+Proof. exact @uoptimal_lren_back. Qed.
+Print Assumptions C09_uoptimal_lren_back.
+
+Theorem C09_total_cost_lmapf :
+  forall g : fam -> fam,
+       (forall x y : fam, g x = g y -> x = y) ->
+       forall (c : costs) (O : otree) (t : ltree),
+       total_cost c (oren g O) true (lmapf g t) = total_cost c O true t.
+Proof. exact @total_cost_lmapf. Qed.
+Print Assumptions C09_total_cost_lmapf.
+
+Theorem C09_optimal_sol_lmapf :
+  forall (g h : fam -> fam) (S : stree) (c : costs) (extended : bool)
+         (orders : list (list fam)) (O : otree) (lt : ltree),
+       (forall x : fam, h (g x) = x) ->
+       (forall x : fam, g (h x) = x) ->
+       optimal_sol S c extended orders O lt ->
+       optimal_sol S c extended (map (map g) orders) (oren g O) (lmapf g lt).
+Proof. exact @optimal_sol_lmapf. Qed.
+Print Assumptions C09_optimal_sol_lmapf.
+
+Theorem C09_optimal_sol_lmapf_back :
+  forall (g h : fam -> fam) (S : stree) (c : costs) (extended : bool)
+         (orders : list (list fam)) (O : otree) (lt' : ltree),
+       (forall x : fam, h (g x) = x) ->
+       (forall x : fam, g (h x) = x) ->
+       optimal_sol S c extended (map (map g) orders) (oren g O) lt' ->
+       exists lt : ltree, lt' = lmapf g lt /\ optimal_sol S c extended orders O lt.
+Proof. exact @optimal_sol_lmapf_back. Qed.
+Print Assumptions C09_optimal_sol_lmapf_back.
+
+(* outgroup, labelled solutions: the minimum is kept (coherent region), the optimal set too when floss > 0 and transfers are finite *)
+Theorem C09_optimal_sol_outgroup :
+  forall (S : stree) (c : costs) (extended : bool) (orders : list (list fam)) (O : otree),
+       coherent_ord c ->
+       orders_ok S O orders ->
+       forall lt : ltree,
+       optimal_sol S c extended orders O lt ->
+       optimal_sol (S_out S) c extended orders (omap og O) (lmap og lt) /\
+       cost_of c (omap og O) (lmap og lt) = cost_of c O lt.
+Proof. exact @optimal_sol_outgroup. Qed.
+Print Assumptions C09_optimal_sol_outgroup.
+
+Theorem C09_optimal_sol_outgroup_back :
+  forall (S : stree) (c : costs) (extended : bool) (orders : list (list fam)) 
+         (O : otree) (lt : ltree),
+       optimal_sol (S_out S) c extended orders (omap og O) (lmap og lt) ->
+       sol S extended orders O lt -> optimal_sol S c extended orders O lt.
+Proof. exact @optimal_sol_outgroup_back. Qed.
+Print Assumptions C09_optimal_sol_outgroup_back.
+
+Theorem C09_optimal_sol_outgroup_set :
+  forall (S : stree) (c : costs) (extended : bool) (orders : list (list fam)) 
+         (O : otree) (lt' : ltree),
+       nn (c_hgt c) ->
+       0 < c_floss c ->
+       coherent_ord c ->
+       orders_ok S O orders ->
+       optimal_sol (S_out S) c extended orders (omap og O) lt' ->
+       exists lt : ltree, lt' = lmap og lt /\ optimal_sol S c extended orders O lt.
+Proof. exact @optimal_sol_outgroup_set. Qed.
+Print Assumptions C09_optimal_sol_outgroup_set.
+
+Theorem C09_optimal_sol_outgroup_iff :
+  forall (S : stree) (c : costs) (extended : bool) (orders : list (list fam)) 
+         (O : otree) (lt' : ltree),
+       nn (c_hgt c) ->
+       0 < c_floss c ->
+       coherent_ord c ->
+       orders_ok S O orders ->
+       optimal_sol (S_out S) c extended orders (omap og O) lt' <->
+       (exists lt : ltree, lt' = lmap og lt /\ optimal_sol S c extended orders O lt).
+Proof. exact @optimal_sol_outgroup_iff. Qed.
+Print Assumptions C09_optimal_sol_outgroup_iff.
+
+Theorem C09_uall_optimal_outgroup :
+  forall (S : stree) (c : costs) (extended : bool) (O : otree),
+       ucoherent c ->
+       forall t : ltree,
+       uall_optimal S c extended O t ->
+       uall_optimal (S_out S) c extended (omap og O) (lmap og t) /\
+       ucost c (omap og O) (lmap og t) = ucost c O t.
+Proof. exact @uall_optimal_outgroup. Qed.
+Print Assumptions C09_uall_optimal_outgroup.
+
+Theorem C09_uoptimal_outgroup :
+  forall (S : stree) (c : costs) (extended : bool) (O : otree),
+       ucoherent c ->
+       forall t : ltree,
+       uoptimal S c extended O t ->
+       uoptimal (S_out S) c extended (omap og O) (lmap og t) /\
+       ucost c (omap og O) (lmap og t) = ucost c O t.
+Proof. exact @uoptimal_outgroup. Qed.
+Print Assumptions C09_uoptimal_outgroup.
+
+Theorem C09_uall_optimal_outgroup_set :
+  forall (S : stree) (c : costs) (extended : bool) (O : otree),
+       ucoherent c ->
+       nn (c_hgt c) ->
+       0 < c_floss c ->
+       forall t' : ltree,
+       uall_optimal (S_out S) c extended (omap og O) t' ->
+       exists t : ltree, t' = lmap og t /\ uall_optimal S c extended O t.
+Proof. exact @uall_optimal_outgroup_set. Qed.
+Print Assumptions C09_uall_optimal_outgroup_set.
+
+Theorem C09_uoptimal_outgroup_set :
+  forall (S : stree) (c : costs) (extended : bool) (O : otree),
+       ucoherent c ->
+       nn (c_hgt c) ->
+       0 < c_floss c ->
+       forall t' : ltree,
+       uoptimal (S_out S) c extended (omap og O) t' ->
+       exists t : ltree, t' = lmap og t /\ uoptimal S c extended O t.
+Proof. exact @uoptimal_outgroup_set. Qed.
+Print Assumptions C09_uoptimal_outgroup_set.
+
+Theorem C09_spfs_outgroup_set :
+  forall (S : stree) (c : costs) (extended : bool) (orders : list (list fam)) 
+         (O : otree) (e e' : entry ltree) (lt' : ltree),
+       nn (c_hgt c) ->
+       0 < c_floss c ->
+       coherent_ord c ->
+       orders_ok S O orders ->
+       spfs S c RALL extended orders O = Some e ->
+       spfs (S_out S) c RALL extended orders (omap og O) = Some e' ->
+       In lt' (tags e') <-> (exists lt : ltree, lt' = lmap og lt /\ In lt (tags e)).
+Proof. exact @spfs_outgroup_set. Qed.
+Print Assumptions C09_spfs_outgroup_set.
+
+Theorem C09_uspfs_outgroup_set :
+  forall (S : stree) (c : costs) (extended : bool) (O : otree),
+       nn (c_hgt c) ->
+       0 < c_floss c ->
+       ucoherent c ->
+       leaves_ok S O ->
+       exists E E' : entry ltree,
+         uspfs S c RALL extended O = Some E /\
+         uspfs (S_out S) c RALL extended (omap og O) = Some E' /\
+         (forall t' : ltree,
+          In t' (tags E') <-> (exists t : ltree, t' = lmap og t /\ In t (tags E))).
+Proof. exact @uspfs_outgroup_set. Qed.
+Print Assumptions C09_uspfs_outgroup_set.
